@@ -56,6 +56,7 @@ def run(prop, tier):
     # (the end of a statement must be recognised the same way before ';' as at the end of the input, and a statement
     #  must start the same way after ';' as at offset 0)
     import fam_grammar
+    fam_grammar.GEN_HEAP = "3g" if tier == "quick" else "10g"
     gl = os.path.join(wd, "glists.ndjson")
     nst = 0
     with open(gl, "w") as out:
@@ -63,7 +64,7 @@ def run(prop, tier):
         for (start, free, bq, bt, bh) in fam_grammar.STARTS:
             if fam_grammar.has_start(start) and not start.startswith("FE_") and start not in ("E12", "Type"):
                 jobs.append(lambda start=start, free=free, b=(bq if tier == "quick" else bh): fam_grammar.generate(chk, start, b, start, free, wd))
-        for (tapes, n) in common.parallel(jobs, 12):
+        for (tapes, n) in common.parallel(jobs, 12 if tier == "quick" else 5):
             if n == 0:
                 continue
             corpus = tapes + ".corpus"
